@@ -26,3 +26,6 @@ func NewPackedReader(r *bufio.Reader) *PackedReader { return packed.NewReader(r)
 
 // Quote is strquote.Append.
 func Quote(buf, s []byte) []byte { return strquote.Append(buf, s) }
+
+// NeedsEscape is strquote.needsEscape.
+func NeedsEscape(b byte) bool { return strquote.VerifNeedsEscape(b) }
